@@ -5,7 +5,8 @@
    operations (a record `sops`). S = the same equations instantiated at rounding-aware interval
    enclosures of the real functions (Check/CheckC06.v, G/Ival.v, soundness: Properties/C10.v). *)
 From Coq Require Import List Bool.
-From V Require Import Recurrent RecurrentProofs.
+From Coq Require Import Reals.
+From V Require Import Recurrent RecurrentProofs Ival IvalProofs CheckC06 FexecProofs.
 Import ListNotations.
 
 (* SPLIT CONSISTENCY, for ANY scalar type and ANY scalar operations (no algebraic law is used, so it
@@ -46,6 +47,31 @@ Theorem C06_relational {A B} (o : sops A) (o' : sops B) (R : A -> B -> Prop) :
                       (snd (run_rec o' k acts' lbr coupled Wg' Rg' Wb' Rb' P' xs' h0' c0')).
 Proof. exact (run_rec_rel o o' R). Qed.
 Print Assumptions C06_relational.
+
+(* S IS SOUND FOR FLOATING POINT: run the recurrence over the reals with ANY rounded operations --
+   arbitrary functions rnd_add, rnd_sub, rnd_mul within one unit roundoff (plus the absolute allowance) of
+   the exact result, rnd_dot within the dot-product bound 2(n+1)u sum|x_i y_i|, activations within their
+   kernels' allowances -- on real inputs enclosed by the interval inputs: every Y at every step, Y_h and Y_c
+   lies in the interval outputs of the model at `iops w`, i.e. in the enclosures the check judges the Go
+   outputs against. (near, dot_near, act_ok, fops: Proofs/FexecProofs.v.) *)
+Theorem C06_enclosures_sound (w : fw) (rnd_add rnd_sub rnd_mul : R -> R -> R) (rnd_dot : list R -> list R -> R) :
+  (forall x y, near w 1 (x + y) (rnd_add x y)) -> (forall x y, near w 1 (x - y) (rnd_sub x y)) ->
+  (forall x y, near w 1 (x * y) (rnd_mul x y)) -> (forall xs ys, dot_near w xs ys (rnd_dot xs ys)) ->
+  forall k (al : list actk) (racts : list (R -> R)) lbr coupled Wg Rg Wb Rb P Wg' Rg' Wb' Rb' P' xs xs' h0 h0' c0 c0',
+  Forall2 (act_ok w) al racts ->
+  Forall2 (Forall2 (Forall2 encl)) Wg Wg' -> Forall2 (Forall2 (Forall2 encl)) Rg Rg' ->
+  Forall2 (Forall2 encl) Wb Wb' -> Forall2 (Forall2 encl) Rb Rb' -> opt_rel (Forall2 (Forall2 encl)) P P' ->
+  Forall2 (Forall2 (Forall2 encl)) xs xs' -> Forall2 (Forall2 encl) h0 h0' -> Forall2 (Forall2 encl) c0 c0' ->
+  let ri := run_rec (iops w) k (map (act_fn w) al) lbr coupled Wg Rg Wb Rb P xs h0 c0 in
+  let rr := run_rec (fops rnd_add rnd_sub rnd_mul rnd_dot) k racts lbr coupled Wg' Rg' Wb' Rb' P' xs' h0' c0' in
+  Forall2 (Forall2 (Forall2 encl)) (fst (fst ri)) (fst (fst rr)) /\
+  Forall2 (Forall2 encl) (snd (fst ri)) (snd (fst rr)) /\ Forall2 (Forall2 encl) (snd ri) (snd rr).
+Proof. exact (fexec_recurrent w rnd_add rnd_sub rnd_mul rnd_dot). Qed.
+(* relu exactly, tanh within 8u: the activation hypotheses are satisfiable *)
+Theorem C06_relu_ok w : act_ok w ARelu (fun x => Rmax x 0).
+Proof. exact (relu_act_ok w). Qed.
+Theorem C06_tanh_ok w act : (forall x, near w 8 (tanh x) (act x)) -> act_ok w ATanh act.
+Proof. exact (tanh_act_ok w act). Qed.
 
 (* the ONNX equations are what the model's cells compute (gate order i o f c / z r h, bias slots Wb then
    Rb, C_t before the output gate, peepholes i o f): by definition of Model/Recurrent.v -- an executable
